@@ -25,7 +25,7 @@ MUTANTS = [
     ("Index.tla", "  /\\ EffMd(n, today) # today\n", "\n", "MC_Index", "MC_IndexQuick.cfg", {"StampIff", "Idempotent"},
      "the 'already dated today' guard of stamping is dropped"),
     ("Index.tla", "IF ~Exists(p) THEN NoHash ELSE IF p \\in S THEN r[1][p] ELSE hashes[p]]", "IF ~Exists(p) THEN NoHash ELSE r[1][p]]", "MC_Index", "MC_IndexPaths.cfg",
-     {"RebuildEquivalence", "Agreement"}, "the hash map vouches for pages that were not processed (explicit-path run)"),
+     {"RebuildEquivalence", "Agreement", "GhostAgrees"}, "the hash map vouches for pages that were not processed (explicit-path run)"),
     ("FileOps.tla", "IF old # \"\" /\\ ~overwrite THEN old", "IF FALSE THEN old", "MC_Template", "MC_Template.cfg", {"NoClobber"},
      "template init ignores that the target exists"),
     ("ActionOpen.tla", "ELSE IF opt = Last THEN Open(ts[Len(ts)], Owner)", "ELSE IF opt = Last THEN Open(ts[1], Owner)", "MC_Action", "MC_Action_FALSE.cfg", {"LawHolds"},
